@@ -31,24 +31,24 @@ pub mod lib_ {
         [C01,C02,C03,C04,C06,C14|fill_buf.frame] final(reader).wf() && final(reader).head() == old(reader).head()
             && final(reader).file() == old(reader).file() && final(reader).base() == old(reader).base()
             && final(reader).cap() == old(reader).cap(),
-        [C01,C02,C03,C04,C14|fill_buf.prefix_kept] final(reader).buf().len() >= old(reader).buf().len()
+        [C01,C02,C03,C04,C06,C14|fill_buf.prefix_kept] final(reader).buf().len() >= old(reader).buf().len()
             && final(reader).buf().subrange(0, old(reader).buf().len() as int) == old(reader).buf(),
-        [C01,C02,C03,C04,C14|fill_buf.ok_full_or_eof] res matches Ok(n) ==>
+        [C01,C02,C03,C04,C06,C14|fill_buf.ok_full_or_eof] res matches Ok(n) ==>
             n == final(reader).buf().len() - old(reader).buf().len()
             && (final(reader).head() + final(reader).buf().len() == final(reader).cap() || final(reader).at_eof()),
-        [C01,C02,C03,C04,C14|fill_buf.ok_no_error_raised] res is Ok ==> final(reader).errs() == old(reader).errs(),
-        [C01,C02,C03,C04,C14|fill_buf.err_is_source_error] res matches Err(e) ==>
+        [C01,C02,C03,C04,C06,C14|fill_buf.ok_no_error_raised] res is Ok ==> final(reader).errs() == old(reader).errs(),
+        [C01,C02,C03,C04,C06,C14|fill_buf.err_is_source_error] res matches Err(e) ==>
             e.k != io::ErrorKind::Interrupted && final(reader).errs() == old(reader).errs().push(e),
 //@loop 0 kw=while
         invariant
             [C01,C02,C03,C04,C06,C14|fill_buf.inv.frame] reader.wf() && reader.head() == old(reader).head() && reader.file() == old(reader).file()
                 && reader.base() == old(reader).base() && reader.cap() == old(reader).cap(),
-            [C01,C02,C03,C04,C14|fill_buf.inv.errs] reader.errs() == old(reader).errs(),
-            [C01,C02,C03,C04,C14|fill_buf.inv.progress] initial_size == old(reader).buf().len()
+            [C01,C02,C03,C04,C06,C14|fill_buf.inv.errs] reader.errs() == old(reader).errs(),
+            [C01,C02,C03,C04,C06,C14|fill_buf.inv.progress] initial_size == old(reader).buf().len()
                 && reader.buf().len() == initial_size + num_read
                 && reader.buf().subrange(0, initial_size as int) == old(reader).buf(),
         ensures
-            [C01,C02,C03,C04,C14|fill_buf.loop_exit_full_or_eof] reader.head() + reader.buf().len() == reader.cap() || reader.at_eof(),
+            [C01,C02,C03,C04,C06,C14|fill_buf.loop_exit_full_or_eof] reader.head() + reader.buf().len() == reader.cap() || reader.at_eof(),
         decreases reader.interrupts_left(), reader.cap() - reader.buf().len(),
 //@end
 
